@@ -185,7 +185,12 @@ func (self *DbImpl) Batch(ctx MutateContext, fn func(ctx MutateContext) error) e
 
 		defer ctx.setTx(nil)
 
+		// bbolt re-runs fn if the batch it was part of had to be rolled back (because another member failed).
+		// Actions registered by a rolled back attempt must not survive into the next attempt.
+		preCommitCount, commitCount := ctx.actionCounts()
+
 		return self.db.Batch(func(tx *bbolt.Tx) error {
+			ctx.truncateActions(preCommitCount, commitCount)
 			ctx.setTx(tx)
 			if err := fn(ctx); err != nil {
 				return err
